@@ -60,7 +60,7 @@ class Codec:
                 out.append([1, aidx(k), int(v)])
         return out
 
-    def enc_resp(self, w, kind, agent_id, val):
+    def enc_resp(self, w, kind, agent_id, val, arg=None):
         if kind in (0, 1):
             return [0]
         sup = agent_id is not None and agent_id[0] == "s"
